@@ -158,6 +158,14 @@ fn char_literals() -> Vec<Lit> {
         ("\\0", 0),
         ("\\u0041", 0x41),
         ("\\u00e9", 0xe9),
+        // code points beyond one byte: the value is the code point, not its low byte
+        ("\\u00ff", 0xff),
+        ("\\u0100", 0x100),
+        ("\\u03bb", 0x3bb),
+        ("\\u03BB", 0x3bb),
+        ("\\u20AC", 0x20ac),
+        ("\\u7fff", 0x7fff),
+        ("\\uffff", 0xffff),
     ] {
         out.push(Lit {
             spelling: format!("'{esc}'"),
@@ -170,6 +178,13 @@ fn char_literals() -> Vec<Lit> {
         value: Some(0xe9),
         kind: "char",
     });
+    for (ch, v) in [('\u{ff}', 0xff), ('\u{100}', 0x100), ('\u{3bb}', 0x3bb), ('\u{20ac}', 0x20ac), ('\u{3000}', 0x3000), ('\u{ffff}', 0xffff), ('\u{1f600}', 0x1f600), ('\u{10ffff}', 0x10ffff)] {
+        out.push(Lit {
+            spelling: format!("'{ch}'"),
+            value: Some(v),
+            kind: "char",
+        });
+    }
     for bad in ["''", "'ab'", "'a", "'\\q'", "'\\u00'", "'\\ud800'"] {
         out.push(Lit {
             spelling: bad.into(),
